@@ -183,6 +183,9 @@ class Flow:
             return
         # --- sorting a sequence clears its taint from here on
         if kind == "seq" and name in SORTS_TOTAL:
+            if getattr(self, "elem_taint", False):
+                self.issues.append(("sorted-outer-only", f"{name}: the elements were themselves built in hash order; ordering the outer sequence does not order them", line))
+                return
             self.notes.append(("sorted", name, line))
             self.sorted_locals = getattr(self, "sorted_locals", set()) | {local}
             return
@@ -192,10 +195,15 @@ class Flow:
         # --- plain plumbing
         if name in ("deref", "deref_mut", "as_ref", "as_mut", "borrow", "borrow_mut", "clone", "as_slice", "as_mut_slice", "into", "from",
                     "branch", "from_residual", "unwrap", "expect", "unwrap_or_default", "unwrap_or", "ok", "as_deref", "iter", "iter_mut",
-                    "into_iter", "to_owned", "must_use", "new", "into_values", "into_keys", "values", "keys", "drain"):
-            if dest is not None and ai == 0:
+                    "into_iter", "to_owned", "must_use", "new", "into_values", "into_keys", "values", "keys", "drain") \
+                and not (callee in self.P.bodies and name in ("new", "from", "into") and self.P.bodies[callee].get("dk") in ("Fn", "AssocFn")):
+            # (a workspace constructor is analysed like any other workspace callee, below)
+            # the value keeps its order whether it is the receiver or another argument (`Record::new(cond, tainted)`,
+            # `opt.unwrap_or(tainted)`): the result is followed either way.  (Dropping it for non-receiver arguments hid the
+            # FeatureTableSubstitution records built from a HashMap inside FeatureVariationRecord::new - defect D21.)
+            if dest is not None:
                 nk = kind
-                if name in ("iter", "iter_mut", "into_iter", "into_values", "into_keys", "values", "keys", "drain") and kind == "seq":
+                if ai == 0 and name in ("iter", "iter_mut", "into_iter", "into_values", "into_keys", "values", "keys", "drain") and kind == "seq":
                     nk = "iter"
                 self.follow(dest, nk, depth + 1)
             return
@@ -274,6 +282,7 @@ class Flow:
         if callee in self.P.bodies:
             if self.depth_budget > 0 and self.P.bodies[callee].get("dk") in ("Fn", "AssocFn"):
                 sub = Flow(self.P, callee, self.summaries)
+                sub.elem_taint = getattr(self, "elem_taint", False)
                 sub.depth_budget = self.depth_budget - 1
                 sub.follow(ai + 1, kind)
                 for owner, l2 in getattr(sub, "pending_seq", []):
@@ -590,8 +599,12 @@ def coll_key(dty):
 
 def analyse_site(P, site, summaries):
     fl = Flow(P, site["fn"], summaries)
+    fl.elem_taint = bool(site.get("elem"))
     t = site["term"]
     m = site["method"]
+    if fl.elem_taint:
+        # a flow of its own, so that an audit entry written for the outer order does not silently cover the inner one
+        fl.issues.append(("nested-hash-order", "the elements of this sequence were themselves built in hash order (" + site["coll"].split(":", 1)[-1].split("::", 2)[-1][-70:] + "); ordering the sequence does not order them", site["line"]))
     fl.source_is_map = "hash_map::" in site["coll"] and m in ("iter", "iter_mut", "into_iter", "drain")
     if m == "retain":
         # retain(|k, v| ..) visits in hash order: only the closure's side effects matter
@@ -629,17 +642,32 @@ def derived_sites(P, reach, returning):
                 continue
             t = s["term"]
             hit = None
-            for tg in s["targets"]:
+            elem = False
+            # a call that could not be devirtualised (`<T as Builder>::build` on a generic T) is expanded to every impl of the
+            # trait method: it counts as returning hash order only if every candidate does (otherwise one unrelated impl
+            # - here PosSubBuilder's own build - taints every generic builder call and feeds back into itself)
+            cands = [tg for tg in s["targets"] if tg in P.bodies]
+            if s.get("virt") and not all(tg in returning for tg in cands):
+                cands = []
+            for tg in cands:
                 if tg in returning and P.bodies[tg].get("dk") in ("Fn", "AssocFn"):
                     hit = tg
+                    elem = elem or bool(returning[tg]) if isinstance(returning, dict) else elem
             if hit is None:
                 for a in t["a"]:
                     l = operand_local(a)
                     if l in closure_locals:
                         hit = closure_locals[l]
+                        if isinstance(returning, dict) and returning.get(hit):
+                            elem = True
+                        # `iter.map(|x| <hash-ordered sequence>)`: every ELEMENT of the result is hash-ordered; sorting the
+                        # outer sequence later does not normalise them (flat_map yields the inner items one by one instead)
+                        k = t["f"].get("k") or {}
+                        if method_name(k.get("fn") or "") in ("map", "filter_map", "and_then", "then", "map_or", "map_or_else"):
+                            elem = True
             if hit:
                 out.append({"fn": fn, "method": "call:" + hit.split("::", 1)[1][-60:], "line": s["line"], "bi": s["bi"], "term": t,
-                            "coll": "returns-hash-ordered:" + hit, "derived": True})
+                            "coll": "returns-hash-ordered:" + hit, "derived": True, "elem": elem})
     return out
 
 
@@ -653,16 +681,17 @@ def run_h(P, tables, scope_filter=None, rule="H"):
     reach = e3.entry_reach(P)
     sites = hash_sites(P, reach)
     # fixed point: functions whose only issue is "returned" propagate the taint to their callers
-    returning = set()
-    for _ in range(6):
-        new = set()
+    returning = {}     # fn -> True if (some of) what it returns has hash-ordered ELEMENTS (nested order)
+    for _ in range(8):
+        new = {}
         for s0 in sites + derived_sites(P, reach, returning):
             fl = analyse_site(P, s0, None)
             if fl.returns_seq:
-                new.add(s0["fn"])
-        if new <= returning:
+                new[s0["fn"]] = new.get(s0["fn"], False) or bool(s0.get("elem"))
+        if all(k in returning and (returning[k] or not v) for k, v in new.items()):
             break
-        returning |= new
+        for k, v in new.items():
+            returning[k] = returning.get(k, False) or v
     sites = sites + derived_sites(P, reach, returning)
     for s0 in sites:
         s0["returning"] = returning
